@@ -311,7 +311,7 @@ func cmdCheck(args []string) int {
 			"bounded: every claim holds only inside the bounds listed per harness (coverage.harnesses[].bounds); outside them nothing is claimed",
 			"trusted base: go/ssa lowering, the gosym VM (validated by native replay and translator validation), intrinsic models of reflect/sync/context/errors/fmt, z3, the reference models in the harness",
 			"map iteration order: `order_schemes` schemes (rotations/reflections of insertion order), one per path",
-			"scheduling: context switches only at user callbacks (constructors, Close methods, handlers), blocking points and goroutine exit; interleavings between two container-internal synchronisation operations are outside every claim. Data races are covered only where a harness enables the happens-before detector (bounds: race=1; web *Conc harnesses) and only between the operations that harness runs together",
+			"scheduling: G1 = context switches at user callbacks (constructors, Close methods, handlers), blocking points and goroutine exit, all enumerated; harnesses with the bound g2=n add up to n involuntary switches, each in front of any mutex acquisition / atomic / sync.Map operation executed by godi's own code (G2). Interleavings that need more pre-emptions than that, or a pre-emption between two plain memory accesses (which is a data race and the business of the happens-before detector), are outside every claim. Data races are covered only where a harness enables the happens-before detector (bounds: race=1; web *Conc harnesses) and only between the operations that harness runs together",
 		}, spec.Assume...),
 		"coverage": map[string]any{
 			"states":                        states,
@@ -337,6 +337,9 @@ func cmdCheck(args []string) int {
 	os.WriteFile(filepath.Join(verifDir(), "evidence", prop+".json"), b, 0o644)
 
 	for _, b := range raceBinaries {
+		os.Remove(b)
+	}
+	for _, b := range g2Binaries {
 		os.Remove(b)
 	}
 	if len(violations) > 0 {
